@@ -207,12 +207,15 @@ def dist_to_polyline(p, poly):
     return best
 
 
-def interp1d_refuses(x, resf, method):
-    """Input-class predicate of the skip_errors defect: scipy's interp1d raises ValueError for at least one small
-    segment that is not shorter than the target (too few points for the spline order, or repeated arc lengths
-    caused by zero-length edges)."""
+def refused_segments(x, resf, method):
+    """First nodes of the small segments for which scipy's interp1d raises ValueError although the segment is not
+    shorter than the target (too few points for the spline order, or repeated arc lengths caused by zero-length
+    edges).  With `skip_errors=True` (default) resample_skeleton keeps the original nodes of such a segment."""
     import scipy.interpolate
+    if method == 'linear':
+        return set()
     c = coords_of(x)
+    out = set()
     for seg in x.small_segments:
         pts = np.array([c[int(i)][:3] for i in seg])
         dist = np.insert(np.cumsum(np.linalg.norm(np.diff(pts.T), axis=0)), 0, 0)
@@ -221,8 +224,12 @@ def interp1d_refuses(x, resf, method):
         try:
             scipy.interpolate.interp1d(dist, pts[:, 0], kind=method)
         except ValueError:
-            return True
-    return False
+            out.add(int(seg[0]))
+    return out
+
+
+def interp1d_refuses(x, resf, method):
+    return bool(refused_segments(x, resf, method))
 
 
 def nearest_check(ctx, x, y, case, what, queries):
@@ -309,6 +316,7 @@ def case_rs(ctx, case, be=None):
     w = ctx.ask('f.wf ' + G.wire_neuron(y))
     ctx.oracle(w == '1 1', f'{what}: result is not a well-formed, correctly labelled forest ({w})', case)
     linear = method == 'linear'
+    refused = refused_segments(x, resf, method)
     total_interior = 0
     seen_new = set()
     for e in ents:
@@ -317,6 +325,9 @@ def case_rs(ctx, case, be=None):
         k = e['k']
         if method == 'cubic' and len(seg) <= 3:
             k = 0
+        kept_original = e['first'] in refused
+        if kept_original:
+            k = len(seg) - 2
         # walk the implementation's chain between the two anchors
         ch = [e['first']]
         while ch[-1] != e['last'] and len(ch) <= k + len(seg) + 3:
@@ -335,6 +346,13 @@ def case_rs(ctx, case, be=None):
             ctx.count('rs_tie', 'half')
         if not ctx.corr(len(inner), k, f"{what}: segment {e['first']}→{e['last']} (length {e['total']}): number of interior nodes vs model", case):
             return
+        if kept_original:
+            # scipy cannot interpolate this segment with the requested method: its original nodes must be kept as they are
+            ctx.count('rs_seg', 'kept-original(skip_errors)')
+            ctx.oracle(ch == seg and all(c1[i][:3] == c0[i][:3] for i in seg),
+                       f"{what}: segment {e['first']}→{e['last']} cannot be interpolated by scipy; its original nodes {seg} must be kept, got {ch}", case)
+            total_interior += len(inner)
+            continue
         ok = all(i not in ids0 for i in inner) and not (set(inner) & seen_new)
         ctx.oracle(ok, f"{what}: interior ids {inner} of segment {e['first']}→{e['last']} are not fresh/unique", case)
         seen_new |= set(inner)
@@ -445,6 +463,11 @@ def case_soma_list(ctx, case, be=None):
             ok, msg = False, f'{type(e).__name__}: {str(e)[:80]}'
         sig = 'resample_skeleton/soma-pinned-to-list/then-subset-broadcast-ValueError' if (not ok and 'broadcast' in msg and nso >= 2) else None
         ctx.oracle(ok, f'after resample_skeleton of a neuron with {nso} somas, {name} raises {msg}', case, signature=sig)
+        if ok and nso:
+            zids = set(int(i) for i in z.nodes.node_id.values)
+            want = sorted(int(v) for v in np.atleast_1d(y.soma) if int(v) in zids)
+            got = [] if z.soma is None else sorted(int(v) for v in np.atleast_1d(z.soma))
+            ctx.oracle(got == want, f'after resample_skeleton + {name}: somas {got}, expected the surviving ones {want}', case)
 
 
 # ------------------------------------------------------------------------------------------------
@@ -546,7 +569,10 @@ def gen_cases(ctx, nf=None):
             yield ('somalist', dict(rows=rows2, res=r.choice([2, 3, 5]), radii=radii, meta=meta2))
         if k % 10 == 7:
             rows2, meta2 = G.rand_forest(r, nmax=12, labeling='zero')
-            yield ('rs', dict(rows=rows2, res=r.choice([1, 2, 3]), soma=0, meta=meta2))
+            if r.random() < 0.5:
+                yield ('rs', dict(rows=rows2, res=r.choice([1, 2, 3]), soma=0, meta=meta2))
+            else:   # soma at node id 0 found by the radius detection (x.soma is an array)
+                yield ('rs', dict(rows=rows2, res=r.choice([1, 2, 3]), radii={'0': '2000'}, meta=meta2))
 
 
 def small_scope(ctx):
